@@ -21,7 +21,7 @@ pub fn c03_check<L: KeyboardLayout, O: CharOracle>(name: &str, l: &L, caps: bool
     kani::assume(level.is_some());
     let mut level = level.unwrap_or(0);
     let out = l.map_keycode(k, &m, h);
-    println!("C03 {} key={:?} mods={:?} mode={:?} level={} out={:?}", name, k, m, h, level, out);
+    crate::show!("C03 {} key={:?} mods={:?} mode={:?} level={} out={:?}", name, k, m, h, level, out);
     if level < 2 {
         if m.capslock && O::letter_cell(k) {
             level = 1 - level;
